@@ -542,6 +542,13 @@ def generate(rng):
 # execution
 # ================================================================================================
 
+def scribble(seq):
+    """Edit a parsed sequence object in place (the caller's own copy of the data): every symbol code is rotated by one."""
+    if len(seq) > 0:
+        n = len(seq.get_alphabet())
+        seq.code = (seq.code + 1) % n
+
+
 class Base:
     def __init__(self, spec, keep_log):
         self.spec = spec
@@ -890,6 +897,11 @@ class FastaSim(Base):
             self.fail("typed:get_sequence-raised", got=exc_name(back), msg=str(back)[:200], kind=op["kind"], seq=op["seq"][:60])
         if type(back) is not typ or str(back) != op["seq"]:
             self.fail("typed:sequence-changed", kind=op["kind"], got=str(back)[:80], expected=op["seq"][:80])
+        scribble(back)
+        st, again = call(fasta.get_sequence, new, op["k"], typ)
+        if st == "exc" or str(again) != op["seq"]:
+            self.fail("typed:sequence-changed", what="second parse of the same text, after the first result was edited in place",
+                      got=str(again)[:80] if st == "ok" else exc_name(again), expected=op["seq"][:80])
         self.readbacks += 1
         self.res.stats["probe:typed-roundtrip"] += 1
         return "ok"
@@ -916,6 +928,17 @@ class FastaSim(Base):
         got = [(k, str(x)) for k, x in back.items()]
         if got != list(zip(op["names"], op["seqs"])):
             self.fail("typed:sequences-changed", got=[(k, x[:30]) for k, x in got], expected=[(k, x[:30]) for k, x in zip(op["names"], op["seqs"])])
+        # what a caller does with a parsed sequence is the caller's business: editing one result in place changes
+        # neither the other entries of this result nor what a later parse of the same text returns
+        for k, x in list(back.items())[:1]:
+            scribble(x)
+        got2 = [(k, str(x)) for k, x in list(back.items())[1:]]
+        if got2 != list(zip(op["names"], op["seqs"]))[1:]:
+            self.fail("typed:sequences-changed", what="other entries after one parsed sequence was edited in place", got=[(k, x[:30]) for k, x in got2])
+        st3, again = call(fasta.get_sequences, new, typ)
+        if st3 == "exc" or [(k, str(x)) for k, x in again.items()] != list(zip(op["names"], op["seqs"])):
+            self.fail("typed:sequences-changed", what="second parse of the same text, after a result was edited in place",
+                      got=exc_name(again) if st3 == "exc" else [(k, str(x)[:30]) for k, x in again.items()])
         self.readbacks += 1
         self.res.stats["probe:typed-roundtrip"] += 1
         return "ok"
